@@ -80,15 +80,44 @@ def gen(rng, n):
 
 
 def gen_json(rng, n):
-    """RotatingJsonFileSink: the pattern line is empty (cnt = 0), the JSON line is what is written"""
+    """RotatingJsonFileSink: the JSON line (wr bytes) is what is written; log_statement (cnt bytes: the
+    pattern line) is empty, short, or by chance as long as the JSON line.  Sizes aimed at file size + line in
+    {limit-1, limit, limit+1}, single lines above the limit, backup counts, naming schemes, an append / w
+    restart, minutely time rotation in between."""
     cases = []
     for k in range(n):
-        c = default_case(json=1, limit=1024, maxb=rng.choice([2, UNLIMITED]))
-        t = T0
-        ops = [('R', 1, 1, t)]
-        for i in range(rng.choice([8, 12, 20])):
-            t += NS
-            ops.append(('W', 800000 + k * 100 + i, t, rng.choice([200, 220, 300]), 0))
+        limit = rng.choice([512, 600, 1024, 1024, 2000])
+        c = default_case(json=1, limit=limit, maxb=rng.choice([0, 1, 2, 3, UNLIMITED, UNLIMITED]), over=rng.choice([1, 1, 1, 0]),
+                         scheme=rng.choice([0, 0, 1, 2]))
+        if rng.random() < 0.15:
+            c['freq'] = 3; c['interval'] = rng.choice([1, 2])
+        cstyle = rng.choice(['empty', 'empty', 'short', 'mixed'])
+        t = T0 + rng.choice([0, 3600 * NS * rng.randint(0, 50)])
+        mode = rng.choice([0, 1])
+        ops = [('R', mode, 1, t)]
+        cur = 0
+        nrest = rng.choice([0, 0, 0, 1])
+        i = 0
+        for seg in range(nrest + 1):
+            for _ in range(rng.choice([6, 9, 12, 20])):
+                t += rng.choice([NS, NS, 2 * NS, 61 * NS])
+                r = rng.random()
+                if r < 0.4:
+                    w = limit - cur + rng.choice([-1, 0, 1])
+                    if w < 190 or w > limit + 1: w = rng.choice([limit // 2, limit // 3 + 100, limit - 1, limit, limit + 1])
+                elif r < 0.5:
+                    w = limit + rng.choice([1, 50, 700])
+                else:
+                    w = rng.choice([190, 200, 220, 255, 256, 257, 300, limit // 2])
+                w = max(w, 190)
+                cnt = 0 if cstyle == 'empty' else rng.choice([0, 10, 47, 120]) if cstyle == 'short' else rng.choice([0, 33, w, w + 5])
+                ops.append(('W', 800000 + k * 100 + i, t, w, cnt)); i += 1
+                cur = cur + w if cur + w <= limit else w
+            if seg < nrest:
+                mode = 1 - mode if c['scheme'] == 0 else 1
+                t += rng.choice([NS, 5 * NS, 86400 * NS])
+                ops.append(('R', mode, 1, t))
+                if mode: cur = 0
         c['ops'] = ops
         cases.append(unparse(c))
     return cases
@@ -111,7 +140,8 @@ def digit_junk_decoys(c):
 
 def run(tier):
     ck = Check(PID, tier)
-    broken = standard_proof_phase(ck, 'Properties_C14', need_srcfacts=False)
+    broken = standard_proof_phase(ck, 'Properties_C14')
+    read_variant(ck)
     mexe, err = ck.build_modelrun()
     if not mexe:
         ck.violation('no-failing-input-found', 'model extraction/build failed: ' + err[-400:]); return ck.finish(trusted=TRUSTED)
@@ -121,7 +151,7 @@ def run(tier):
         return ck.finish(trusted=TRUSTED)
     n = 3000 if tier == "quick" else 40000
     cor = corpus(PID)
-    cases = cor + gen_json(ck.rng, 3 if tier == 'quick' else 30) + gen(ck.rng, n)
+    cases = cor + gen_json(ck.rng, 300 if tier == 'quick' else 4000) + gen(ck.rng, n)
     ml, il, tabs = run_both(ck, mexe, iexe, cases)
 
     def both(case):
@@ -145,9 +175,6 @@ def run(tier):
 
     def known_match(case, impl_line, msg):
         c = parse(case)
-        f = findings.get('D10')
-        if f and c['json'] == 1 and 'bytes, limit' in msg and all(o[0] == 'R' or o[4] == 0 for o in c['ops']):
-            return '%s open: %s' % (f['id'], f['what'])
         f = findings.get('C14-decoy-index')
         if f and digit_junk_decoys(c) and c['scheme'] == 0 and any(o[0] == 'R' and not o[1] for o in c['ops']):
             # attributable to that decoy only if the violation disappears without it
@@ -208,6 +235,7 @@ def same_second_restart(c):
 def replay(path):
     d = json.load(open(path))
     ck = Check(PID, 'quick')
+    ck.srcfacts(); read_variant()
     mexe, _ = ck.build_modelrun(); iexe, _ = ck.build_harness('rot', ['rot.cpp'])
     c = d.get('case')
     if not c:
@@ -215,6 +243,7 @@ def replay(path):
     ml, il, _ = run_both(ck, mexe, iexe, [c])
     cc = parse(c)
     print('case :', c)
+    print('model variant (T-src): c_cntacct=%(cntacct)d c_plus24=%(plus24)d' % VARIANT)
     print('config: scheme=%s freq=%s limit=%d max_backup=%s overwrite=%d json=%d zone=%s' % (
         SCHEMES[cc['scheme']], FREQS[cc['freq']], cc['limit'], cc['maxb'], cc['over'], cc['json'], 'GMT' if cc['gmt'] else ZONES[cc['zone']]))
     for o in cc['ops']: print('  op', o)
